@@ -643,7 +643,22 @@ fn judge_inner(sc: &Scenario, out: &RunOut, reference: &Reference, root: &Path, 
     };
     let code_rel = rel_of(root, &code_abs);
     let eep_rel = rel_of(root, &eep_abs);
-    let f = facts(sc, out, root, &code_abs, &eep_abs);
+    let mut f = facts(sc, out, root, &code_abs, &eep_abs);
+    {
+        // an output spelled "name/" or "name/." cannot be written, whatever the tool tries:
+        // that is a fault of the command line on that output
+        let dir_spelling = |o: &Option<String>| o.as_ref().map(|p| p.ends_with('/') || p.ends_with("/.")).unwrap_or(false);
+        if dir_spelling(&parsed.output) {
+            f.fault_on_code = true;
+            f.hard_on_code = true;
+            f.any = true;
+        }
+        if dir_spelling(&parsed.eeprom) {
+            f.fault_on_eep = true;
+            f.hard_on_eep = true;
+            f.any = true;
+        }
+    }
     if sc.source_class == "shadowed-part-file" && (f.hard_input || sc.read_cap > 0 || out.trace.iter().any(|e| e.rule >= 0 && !e.path.starts_with('<') && !e.path.ends_with(".hex") && !e.path.contains("eep"))) {
         // two files qualify for the include: a fault on one candidate legitimately leads the
         // tool to the other one, which the fault-free reference did not use - not judged
@@ -737,8 +752,17 @@ fn judge_inner(sc: &Scenario, out: &RunOut, reference: &Reference, root: &Path, 
         }
         Reference::Built { code, eeprom } => {
             let opened = |p: &Path| out.trace.iter().any(|e| e.call == Call::Open && e.ret >= 0 && abs_of_event(root, &sc.cwd, &e.path) == p);
-            let cs = output_state(&out.before, &out.after, &code_rel, &code_abs, code, opened(&code_abs));
-            let es = output_state(&out.before, &out.after, &eep_rel, &eep_abs, eeprom, opened(&eep_abs));
+            let mut cs = output_state(&out.before, &out.after, &code_rel, &code_abs, code, opened(&code_abs));
+            let mut es = output_state(&out.before, &out.after, &eep_rel, &eep_abs, eeprom, opened(&eep_abs));
+            // "name/" and "name/." can only name a directory: no file can be written *to the path
+            // given*; a file that appears at the spelling without the slash is not that path
+            let dir_spelling = |o: &Option<String>| o.as_ref().map(|p| p.ends_with('/') || p.ends_with("/.")).unwrap_or(false);
+            if dir_spelling(&parsed.output) && cs == PathState::ExactlyRight {
+                cs = PathState::Wrong("the -o path ends in a slash and cannot name a file; the image was written to another path".into());
+            }
+            if dir_spelling(&parsed.eeprom) && es == PathState::ExactlyRight {
+                es = PathState::Wrong("the -e path ends in a slash and cannot name a file; the image was written to another path".into());
+            }
             let need_code = !code.is_empty();
             let need_eep = !eeprom.is_empty();
             let code_right = cs == PathState::ExactlyRight || (!need_code && cs == PathState::Untouched);
@@ -1029,7 +1053,7 @@ fn up_from(cwd: &str) -> String {
 
 /// where an explicitly given output goes: normal places and the real failure locations
 fn out_choice(r: &mut Rng, name: &str, sc: &mut Scenario) -> String {
-    match r.below(7) {
+    match r.below(8) {
         0 => name.to_string(),
         1 => {
             sc.dirs.push("outdir".into());
@@ -1060,7 +1084,9 @@ fn out_choice(r: &mut Rng, name: &str, sc: &mut Scenario) -> String {
             sc.rules.push(RuleSpec::errno("write", &format!("$R/{}", dev), -1, "ENOSPC", "full-device"));
             format!("$R/{}", dev)
         }
-        _ => format!("./{}", name),
+        6 => format!("./{}", name),
+        // a spelling that can only name a directory: the output cannot be written
+        _ => format!("{}{}", name, if r.chance(1, 2) { "/" } else { "/." }),
     }
 }
 
@@ -1202,6 +1228,7 @@ fn account(acc: &mut Acc, sc: &Scenario, out: &RunOut, reference: &Reference, ro
     };
     stats.probe("default_name_taken_for_hex", built && clen > 0 && parsed.output.is_none());
     stats.probe("default_name_taken_for_eep_hex", built && elen > 0 && parsed.eeprom.is_none());
+    stats.probe("output_path_spelled_with_a_trailing_slash", parsed.output.iter().chain(parsed.eeprom.iter()).any(|p| p.ends_with('/') || p.ends_with("/.")));
     stats.probe("both_o_and_e_given", parsed.output.is_some() && parsed.eeprom.is_some());
     stats.probe("o_given_e_defaulted_with_eeprom_data", parsed.output.is_some() && parsed.eeprom.is_none() && elen > 0);
     stats.probe("source_in_subdirectory_with_other_cwd", !sc.cwd.is_empty());
